@@ -183,6 +183,13 @@ SinkOk(GT, w, su, upd, fnd, all) ==
      /\ (all[i] = 1) = g
      /\ (fnd[i] = 1) => g            \* find() by name may be shadowed by a message of the same name
 
+(* layout 5: listing skips the variant that is not available; it still never lists anything without a grant *)
+SinkOkCond(GT, w, su, upd, fnd, all) ==
+  \A i \in Msgs(w) : LET g == i \in GT[su] IN
+     /\ (upd[i] > 0) = g
+     /\ (all[i] = 1) => g
+     /\ (fnd[i] = 1) => g
+
 (***************************************************************************)
 (* S: the code-shaped model                                                 *)
 (***************************************************************************)
@@ -373,16 +380,26 @@ AclAmbiguous == {
 AmbiguousWorlds ==
   { [lay |-> 4, dsrc |-> a.dsrc, d |-> a.d, d2 |-> a.d2, users |-> a.users, msgs |-> m] :
       a \in AclAmbiguous, m \in MsgConfigsOver(1, {<<>>, La, Lb, Lab}) }
+(* layout 5 = conditional variants: two read messages of the SAME circuit and name with DIFFERENT levels, guarded by   *)
+(* conditions [h1] / [h2] on the value of the passive message "hw1" / "hw2" (slot 3; the digit in its name is the      *)
+(* value seen on the bus before any client connects, so variant 1 resp. 2 is the available one).  A by-name lookup     *)
+(* designates both variants (Targets); P lets the client see or trigger only the granted ones, whichever is available. *)
+CondWorlds ==
+  { [lay |-> 5, dsrc |-> a.dsrc, d |-> a.d, d2 |-> a.d2, users |-> a.users,
+     msgs |-> <<Msg("r", "ca", "rd", xy[1]), Msg("r", "ca", "rd", xy[2]), Msg("u", "ca", hw, <<>>)>>] :
+      a \in AclQuick, xy \in {p \in {<<>>, La, Lab} \X {<<>>, La, Lab} : p[1] # p[2]}, hw \in {"hw1", "hw2"} }
+
 (* quick: 8 ACLs x (all 25 level assignments of the read/write pair + 9 + 9 for the layouts with a twin);          *)
 (* thorough: 8 ACLs x (25 + 25 + 25) and every ACL of AclThorough x the two probing message sets                 *)
 Worlds(tier) ==
   IF tier = "thorough"
   THEN WorldsOver(AclQuick, MsgLevels, MsgLevels)
        \cup { [lay |-> pm.lay, dsrc |-> a.dsrc, d |-> a.d, d2 |-> a.d2, users |-> a.users, msgs |-> pm.msgs] : a \in AclThorough, pm \in ProbeMsgs }
-       \cup AmbiguousWorlds
-  ELSE WorldsOver(AclQuick, MsgLevels, {<<>>, La, Lab}) \cup AmbiguousWorlds
+       \cup AmbiguousWorlds \cup CondWorlds
+  ELSE WorldsOver(AclQuick, MsgLevels, {<<>>, La, Lab}) \cup AmbiguousWorlds \cup CondWorlds
 
 Cmd(op, m, u, s) == [op |-> op, m |-> m, u |-> u, s |-> s]
+Battery5 == <<Cmd("r", 1, 0, 0), Cmd("rf", 1, 0, 0), Cmd("rc", 2, 0, 0), Cmd("rcn", 1, 0, 0), Cmd("rm", 2, 0, 0)>>
 Battery(lay) ==
   <<Cmd("r", 1, 0, 0), Cmd("rf", 1, 0, 0), Cmd("rhn", 1, 0, 0), Cmd("rh", 1, 0, 0), Cmd("w", 2, 0, 0), Cmd("wh", 2, 0, 0),
     Cmd("rp", 1, 0, 0), Cmd("g", 1, 0, 0), Cmd("rc", 1, 0, 0), Cmd("g", 1, 2, 2), Cmd("rhc", 1, 0, 0), Cmd("whc", 2, 0, 0),
@@ -432,6 +449,8 @@ Sessions(tier) ==
   \cup { [lay |-> 4, cmds |-> p \o Battery(4)] :          \* ambiguous configurations: one battery per way of (not) logging in
           p \in {<<>>, <<Cmd("auth", 1, 1, 1)>>, <<Cmd("auth", 1, 1, 4)>>, <<Cmd("auth", 1, 1, 9)>>, <<Cmd("auth", 1, 2, 2)>>,
                  <<Cmd("auth", 1, 1, 1), Cmd("auth", 1, 1, 4)>>, <<Cmd("auth", 1, 1, 4), Cmd("auth", 1, 1, 1)>>} }
+  \cup { [lay |-> 5, cmds |-> p \o Battery5 \o q \o Battery5] :     \* conditional variants: by-name telnet reads only
+          p \in AuthPrefixes(tier), q \in {<<>>, <<Cmd("auth", 1, 1, 1)>>, <<Cmd("auth", 1, 2, 2)>>} }
   \cup { [lay |-> 4, cmds |-> CmdsInOrder({Cmd(op, m, cr[1], cr[2]) : op \in {"g", "gq", "gp"}, m \in 1..2,
                                                                       cr \in {<<0, 0>>, <<1, 1>>, <<1, 4>>, <<1, 9>>}})] }
 
